@@ -147,12 +147,12 @@ type mcCase struct {
 func enumMaxConcurrent(thorough bool, samples *report.Samples) map[string]any {
 	mtus := []int{128, 129, 160}
 	sizeProfiles := []string{"maximum"}
-	starts := []uint64{0, 1<<32 - 100}
+	starts := []uint64{0, 1<<32 - 100, 1<<64 - 100}
 	budget := 15 * time.Second
 	if thorough {
 		mtus = []int{128, 129, 130, 131, 132, 133, 134, 135, 136, 140, 150, 160, 200, 256, 300}
 		sizeProfiles = []string{"maximum", "mixed"}
-		starts = []uint64{0, 1000, 1<<32 - 100, 1<<64 - 300}
+		starts = []uint64{0, 1000, 1<<32 - 100, 1<<64 - 300, 1<<64 - 100, 1<<64 - 2}
 		budget = 4 * time.Minute
 	}
 	profs := mcProfiles()
